@@ -249,7 +249,7 @@ func c05(c *core.Ctx, r *core.Report) {
 
 	// ---- R5 once per name: creator exclusivity + registry typestate (creation never re-runs, one early reference)
 	creatorExclusive(c, r, "C05.R5", l)
-	for _, T := range c.Implementors(c.Iface("container", "SingletonComponentRegistry")) {
+	for _, T := range implementorsBehindFacades(c, "container", "SingletonComponentRegistry") {
 		sub := core.NewReport("C04", c.Tier, 0)
 		c04Explore(c, sub, T)
 		for _, o := range sub.Obls {
